@@ -120,6 +120,9 @@ type NodeOpts struct {
 	// 0 none; 1 CheckTx of every tx of a block before the block starts (a node with a mempool);
 	// 2 additionally Simulate and ReCheckTx calls between DeliverTx calls, and list/point queries after commits.
 	Noise int `json:"noise,omitempty"`
+	// RestartEvery: when a recording is replayed (C01) the node is stopped and restarted from its database after
+	// every commit, so that nothing it keeps in process memory outlives a block.
+	RestartEvery bool `json:"restart_every,omitempty"`
 }
 
 type Account struct {
